@@ -61,4 +61,23 @@ theorem foldl_range_inv' {σ : Type} (P : Nat → σ → Prop) (n : Nat) (f : σ
     (hstep : ∀ k t, k < n → P k t → P (k + 1) (f t k)) : P n ((List.range n).foldl f s) :=
   foldl_range_inv P n f s h0 hstep
 
+/-- the outcome is fuel exhaustion / a normal return (for witnesses evaluated by the kernel) -/
+def outOfFuel {β : Type} : Res β → Bool
+  | .error .fuel => true
+  | _ => false
+
+def returns {β : Type} : Res β → Bool
+  | .ok _ => true
+  | _ => false
+
+theorem outOfFuel_iff {β : Type} (r : Res β) : outOfFuel r = true ↔ r = .error .fuel := by
+  cases r with
+  | ok a => simp [outOfFuel]
+  | error e => cases e <;> simp [outOfFuel]
+
+theorem returns_iff {β : Type} (r : Res β) : returns r = true ↔ ∃ a, r = .ok a := by
+  cases r with
+  | ok a => simp [returns]
+  | error e => simp [returns]
+
 end Bpp.Mx.Lap
